@@ -119,6 +119,7 @@ struct HistOpts {
     bool midstream = true;       // key / tweak change in mid-stream without set_counter
     bool lifecycle = false;      // cleanup, repeated cleanup, use after cleanup, re-init
     bool unkeyed_data = false;   // data through an initialised but un-keyed object (unspecified: differential only)
+    bool allocfail = false;      // some init calls run with their first allocation request failing (needs the allocator monitor)
     int inbetween = 10;          // percent of key lengths between primary sizes
     int max_chunk_class = 2;     // 0: tiny chunks only, 2: full gchunk distribution
 };
@@ -158,6 +159,14 @@ struct HistGen {
     }
     void init(int i) {
         SlotState &s = ss[i];
+        if (o.allocfail && *chance(12)) {
+            // the init's allocation fails: it must return 0 and leave an inert object ("failed-to-initialise" state)
+            // (not marked inv: unlike an invalid call it does write the object - it makes it inert - and it is part of
+            //  the twin history too)
+            p.push_back(base(i, "init").set("be", s.be).set("failat", 1));
+            s.live = false; s.keyed = false; s.ever = true;
+            return;
+        }
         p.push_back(base(i, "init").set("be", s.be));
         s.live = true; s.keyed = false; s.tweaked = false; s.ever = true;
     }
